@@ -24,8 +24,14 @@ CHECKS = {
          "cw3-flex with native or cw20 (real cw20-base) deposits, refunds on/off, all payment shapes (exact, short, excess, none, wrong denom, extra coin; cw20 allowance exact/short/excess/none): every call's real balance deltas of all actors and the multisig must equal the ledger's expectation (deposit taken exactly once on a successful propose, returned exactly once to the proposer by Execute or - if enabled - Close, never otherwise); at the end the chain is moved past every expiry and Close/Execute are attempted on every proposal, after which no failed proposal may still hold its deposit when refunds are enabled (F6 tolerated under its exact signature only).", "DESIGN.md section 4 / C15"),
  "C04": ("cw3lib", "property-based testing of the decision functions against an exact-arithmetic reference model, with exhaustive enumeration of vote completions for totals <= 12",
          "Millions of constructed proposals (all three threshold kinds incl. percentages a hair above rationals j/total with 9 and 18 decimals, totals from 0 to u64::MAX, tallies placed at yes/no/quorum decision boundaries, before / exactly at / after expiry): after expiry is_passed is compared with the documented formula in exact u128 arithmetic (<= 9 decimals exactly; 18 decimals within one vote and never stricter), before expiry Passed/Rejected are checked against every completion of the outstanding votes (enumerated for totals <= 12, closed-form extremal completions cross-checked against the enumeration above), never both, never Passed with zero Yes.", "DESIGN.md section 4 / C04"),
+ "C09": ("cw4", "stateful property-based testing against a per-block membership reference model; smart queries vs raw spec keys differential",
+         "Generated block-structured histories on cw4-group (UpdateMembers with overlapping add/remove lists, re-weights, remove-then-re-add, several changes per block) and cw4-stake (bond/unbond by several users): after every transaction TotalWeight == sum of paged ListMembers, Member == listing, raw TOTAL_KEY / member_key(addr) reads == smart queries; at the end of every block Member{at_height:h} (and cw4-group TotalWeight{at_height:h}) is compared with the model's start-of-block value for every pool address and every h from before instantiation to now+2.", "DESIGN.md section 4 / C09"),
+ "C14": ("cw4", "stateful property-based testing; admin-gate invariants + truthfulness check of every decoded MemberChangedHookMsg",
+         "Generated histories of UpdateAdmin / AddHook / RemoveHook / UpdateMembers (cw4-group) and Bond / Unbond (cw4-stake) by admins, ex-admins and strangers with 0-3 hooks: membership (group), hook list and admin differ only after a successful call by the pre-call admin and never once the admin is cleared; every successful membership-changing call's Response.messages are decoded and composed per key (first old == pre weight, entries chain, last new == post weight), every changed address appears, each registered hook gets exactly one notification, removed hooks none.", "DESIGN.md section 4 / C14"),
  "C13": ("cw20", "stateful property-based testing, minter/cap invariants after every call",
          "Generated histories weighted to Mint/Burn/UpdateMinter by minter, ex-minters and strangers with caps at initial supply -1/0/+1 and mint amounts at cap-supply(+1); invariants on supply, cap and minter identity after every call.", "DESIGN.md section 4 / C13"),
+ "C20": ("page", "property-based testing of every list query: generated state sizes / deletions / limits / cursors, paged walk vs model key set and point queries",
+         "For each of the 16 paginated listings (cw20 accounts, owner and spender allowances; subkeys allowances (expired hidden) and permissions; fixed and flex proposals forward/reverse, votes, voters; cw4-group and cw4-stake members; ics20 allow list) states with 0..70 items incl. runs of deleted / expired entries longer than a page are built through real calls; a walk with cursor = last returned key must return exactly the model's key set in key order with point-query values, pages never exceed min(limit,30), absent limit gives 10, results are independent of the page size, and a walk from a mid-list cursor returns exactly the suffix.", "DESIGN.md section 4 / C20"),
  "C19": ("cw20", "stateful property-based testing, three-view differential oracle incl. fabricated legacy storage + migrate",
          "Generated allowance histories (draws to zero, removals, re-grants) and a legacy arm that fabricates a 0.13.4 storage image, migrates it and continues; after every step the owner listing, spender listing (both paged with limit 3) and point query are compared for all 25 pairs.", "DESIGN.md section 4 / C19"),
 }
@@ -33,6 +39,8 @@ CHECKS = {
 FAMILIES = {
  "cw3": ("harness/fam_cw3 (module multisig)", "proptest op-sequence generator + interpreter over cw3-fixed-multisig / cw3-flex-multisig + cw4-group + cw20-base + recorder contract on cw-multi-test"),
  "cw3lib": ("harness/fam_cw3 (module tally)", "proptest generator of (threshold, total, tally, expiry) + exact u128 model + completion enumeration over cw3::Proposal"),
+ "cw4": ("harness/fam_cw4", "proptest block-structured history generator + interpreter over cw4-group / cw4-stake entry points (direct driver)"),
+ "page": ("harness/fam_page", "proptest generator of (listing, size, deletions, limit, cursor) + paged-walk oracle over all list queries (direct driver; cw-multi-test for cw3-flex)"),
  "cw20": ("harness/fam_cw20", "proptest op-sequence generator + interpreter over cw20-base entry points (direct driver)"),
 }
 
